@@ -142,6 +142,7 @@ func (c *channel) enqueue(req request, responseChan chan<- response, streaming b
 		c.responseRouters[req.msg.Metadata.MessageID] = responseRouter{responseChan, streaming}
 		c.responseMut.Unlock()
 	}
+	verifPoint("enq.registered", c)
 	// either enqueue the request on the sendQ or respond
 	// with error if the node is closed
 	select {
@@ -197,13 +198,16 @@ func (c *channel) sendMsg(req request) (err error) {
 			case <-done:
 				// false alarm
 			default:
+				verifPoint("wat.beforeCancel", c)
 				// trigger reconnect
 				c.cancelStream()
 			}
 		}
 	}()
 
+	verifPoint("snd.beforeWrite", c)
 	err = c.gorumsStream.SendMsg(req.msg)
+	verifPoint("snd.afterWrite", c)
 	if err != nil {
 		c.setLastErr(err)
 		c.streamBroken.set()
@@ -222,12 +226,14 @@ func (c *channel) sender() {
 			return
 		case req = <-c.sendQ:
 		}
+		verifPoint("snd.dequeued", c)
 		// try to connect to the node if previous attempts
 		// have failed or if the node has disconnected
 		if !c.isConnected() {
 			// streamBroken will be set if the reconnection fails
 			c.connect()
 		}
+		verifPoint("snd.afterConnect", c)
 		// return error if stream is broken
 		if c.streamBroken.get() {
 			c.routeResponse(req.msg.Metadata.MessageID, response{nid: c.node.ID(), err: streamDownErr})
@@ -246,10 +252,13 @@ func (c *channel) receiver() {
 	for {
 		resp := newMessage(responseType)
 		c.streamMut.RLock()
+		verifPoint("rcv.parked", c)
 		err := c.gorumsStream.RecvMsg(resp)
 		if err != nil {
+			verifPoint("rcv.err", c)
 			c.streamBroken.set()
 			c.streamMut.RUnlock()
+			verifPoint("rcv.unlocked", c)
 			c.setLastErr(err)
 			// we only reach this point when the stream failed AFTER a message
 			// was sent and we are waiting for a reply. We thus need to respond
@@ -260,8 +269,10 @@ func (c *channel) receiver() {
 			c.reconnect(-1)
 		} else {
 			c.streamMut.RUnlock()
+			verifPoint("rcv.beforeRoute", c)
 			err := status.FromProto(resp.Metadata.GetStatus()).Err()
 			c.routeResponse(resp.Metadata.MessageID, response{nid: c.node.ID(), msg: resp.Message, err: err})
+			verifPoint("rcv.afterRoute", c)
 		}
 
 		select {
@@ -292,6 +303,7 @@ func (c *channel) connect() error {
 	if c.streamBroken.get() {
 		// try to reconnect only once.
 		// Maybe add this as a user option?
+		verifPoint("con.broken", c)
 		c.reconnect(1)
 	}
 	return nil
@@ -305,7 +317,9 @@ func (c *channel) reconnect(maxRetries float64) {
 	var retries float64
 	for {
 		var err error
+		verifPoint("rec.beforeLock", c)
 		c.streamMut.Lock()
+		verifPoint("rec.locked", c)
 		// check if stream is already up
 		if !c.streamBroken.get() {
 			// do nothing because stream is up
@@ -333,6 +347,7 @@ func (c *channel) reconnect(maxRetries float64) {
 		}
 		delay = math.Min(delay, max)
 		delay *= 1 + backoffCfg.Jitter*(rand.Float64()*2-1)
+		verifPoint("rec.backoff", c)
 		select {
 		case <-time.After(time.Duration(delay)):
 			retries++
